@@ -9,6 +9,7 @@
 #include <string.h>
 
 int bfs_cur_hist[BFS_MAXD + 1], bfs_cur_n;
+int bfs_shard_mode; /* 0: shard on the first two operations; 1: the caller shards (every transition is ours) */
 
 struct hist
 {
@@ -90,7 +91,7 @@ void bfs_run(const struct bfs_cb *cb, int maxdepth, long maxstates, struct bfs_s
 				uint64_t skey = hl >= 2 ? (uint64_t)fr[f].op[0] * 1009u + fr[f].op[1]
 				                : hl == 1 ? (uint64_t)fr[f].op[0] * 1009u + (uint64_t)ops[m]
 				                          : (uint64_t)ops[m];
-				int owner = mc_mine(skey);
+				int owner = bfs_shard_mode ? 1 : mc_mine(skey);
 				if (hl >= 2 && !owner)
 					continue;
 				if (owner)
